@@ -154,10 +154,13 @@ def gen_state(rng, n, fam, part):
         # trailing coefficients of relative size 1e-4 (a thousand times the library's rank cut): they count
         s = np.array([1.0, 0.6, 1e-4, 0.5e-4, 0.3e-4, 0.2e-4, 0.15e-4, 0.1e-4][:m])
         return _from_spectrum(rng, n, part, s)
+    if fam == "schur":
+        vs = schur_vectors(n, int(rng.integers(0, n + 1)))
+        return vs[int(rng.integers(len(vs)))]
     raise ValueError(fam)
 
 
-FAMS = ["complex", "real", "negative", "basis", "sparse", "product", "hadamard", "ghz", "w", "blockprod",
+FAMS = ["schur", "complex", "real", "negative", "basis", "sparse", "product", "hadamard", "ghz", "w", "blockprod",
         "rank1", "rank2", "rank3", "degenerate", "gapped", "small_coeff"]
 
 
@@ -263,29 +266,66 @@ def all_subsets(n):
 COMBOS = [(i, u) for i in ("ccd", "knill") for u in ("qsd", "csd")]
 
 
+def _hadamard(n):
+    h = np.array([[1.0, 1.0], [1.0, -1.0]]) / np.sqrt(2)
+    m = np.array([[1.0]])
+    for _ in range(n):
+        m = np.kron(m, h)
+    return m
+
+
+def schur_vectors(n, m):
+    """Schur vectors of a unitary completion of 2^m Hadamard columns (real, highly structured; the inputs on which the
+    known Qiskit _apply_a2 finding was first seen)"""
+    import scipy.linalg
+    iso = _hadamard(n)[:, : 2 ** m].astype(complex)
+    u = iso if m == n else np.concatenate([iso, np.conj(scipy.linalg.null_space(iso.T))], axis=1)
+    _, z = scipy.linalg.schur(u, output="complex")
+    return [_unit(z[:, i]) for i in range(2 ** n)]
+
+
+def schur_sweep(ctx, deep):
+    rng = ctx.rng
+    plan = {3: (1, 2), 4: (1, 2, 3), 5: (2, 4)} if deep else {4: (3,), 5: (4,)}
+    for n, ms in plan.items():
+        for m in ms:
+            for vec in schur_vectors(n, m):
+                subsets = list(all_subsets(n))
+                parts = [list(range(n // 2 + n % 2))] + [subsets[int(j)] for j in rng.permutation(len(subsets))[:2]]
+                for part in parts:
+                    for r in (0, 2):
+                        opts = {"lr": r, "partition": part}
+                        ctx.monitor(f"n={n}")
+                        ctx.count("schur_sweep", key=(n, tuple(part), r, vec.tobytes()), nontrivial=True, sample=None)
+                        eval_case(ctx, vec, opts, "schur_sweep")
+
+
 def evaluate(ctx, deep):
     rng = ctx.rng
-    nmax = 7 if deep else 5
+    schur_sweep(ctx, deep)
+    nmax = 8 if deep else 6
+    n_allfam = 6 if deep else 5
+    n_allrank = 5 if deep else 4
     for n in range(2, nmax + 1):
         subsets = list(all_subsets(n))
         for si, part in enumerate(subsets):
             idx = ref_index(n, part)
             m = min(idx.shape)
-            if n <= (5 if deep else 4):
+            if n <= n_allfam:
                 fams = FAMS
-            elif n <= (6 if deep else 5):
-                fams = [FAMS[(si * 7 + j * 3) % len(FAMS)] for j in range(6 if deep else 5)]
+            elif n == n_allfam + 1:
+                fams = [FAMS[(si * 7 + j * 3) % len(FAMS)] for j in range(4 if deep else 3)]
             else:
-                fams = [FAMS[(si * 7 + j * 3) % len(FAMS)] for j in range(2)]
+                fams = [FAMS[(si * 7) % len(FAMS)]]
             for fam in fams:
                 vec = gen_state(rng, n, fam, part)
                 rmax = max(m, 2 ** (n // 2))
-                if n <= 3 or (deep and n <= 4):
+                if n <= n_allrank:
                     ranks = list(range(0, rmax + 2))
-                elif n <= 4:
-                    ranks = sorted({0, 1, 2, 3, int(rng.integers(1, rmax + 2))})
-                else:
+                elif n <= n_allfam:
                     ranks = sorted({[0, 1][int(rng.integers(2))], int(rng.integers(1, rmax + 1)), [2, 3, rmax, rmax + 1][int(rng.integers(4))]})
+                else:
+                    ranks = sorted({int(rng.integers(0, 3)), int(rng.integers(2, rmax + 1))})
                 for r in ranks:
                     p = list(part)
                     order = "sorted"
